@@ -429,8 +429,8 @@ def load_from_file(cfg_file):
             var, val = line.split("=", 1)
             var = var.strip().lower()
             val = val.strip("' ").strip('" ').strip()
-            if len(val) == 0:
-                # skip invalid values
+            if len(var) == 0 or len(val) == 0:
+                # skip invalid (empty) keys and values
                 continue
             # convert parameter value to correct type
             if dfn.config_key_exists(sec, var):
